@@ -802,20 +802,43 @@ def verify_collects(rep, vmod, rule, rule_sel):
         apps = [e for e in ps.events if e.kind == 'call' and
                 isinstance(e.r.func, ast.Attribute) and e.r.func.attr == 'append'
                 and len(e.r.args) == 1]
-        dni = [e for e in apps if nt(e.r.args[0]) == 'DoesNotImplement(iface, candidate)']
-        tent = ps.fact('tentative')
-        told = ps.fact('%s(candidate)' % T)
-        if tent is None:
-            p_decl.append('tentative is not consulted')
-        elif tent:
-            if dni:
-                p_decl.append('DoesNotImplement recorded although tentative')
-        else:
-            if told is None:
-                p_decl.append('not tentative, but %s(candidate) is not asked' % T)
-            elif bool(dni) != (told is False):
-                p_decl.append('DoesNotImplement recorded: %s although the candidate '
-                              '%s' % (bool(dni), 'declares' if told else 'does not declare'))
+        DNI = 'DoesNotImplement(iface, candidate)'
+        ins0 = [e for e in ps.events if e.kind == 'call' and
+                isinstance(e.r.func, ast.Attribute) and e.r.func.attr == 'insert'
+                and len(e.r.args) == 2 and nt(e.r.args[0]) == '0']
+        built = [e for e in ps.events if e.kind == 'call' and nt(e.r) == DNI]
+        dni = [e for e in apps if nt(e.r.args[0]) == DNI] + \
+            [e for e in ins0 if nt(e.r.args[1]) == DNI]
+        displays = {nt(e.r.func.value) for e in apps + ins0
+                    if isinstance(e.r.func.value, ast.List)} | \
+            {nt(n) for x in [ps.ret, ps.raised] if x is not None
+             for n in ast.walk(x) if isinstance(n, ast.List)}
+        for c_, t_, p_ in ps.order:
+            try:
+                for n in ast.walk(ast.parse(c_, mode='eval').body):
+                    if isinstance(n, ast.List):
+                        displays.add(nt(n))
+            except SyntaxError:
+                pass
+        in_display = [d for d in displays if DNI in d]
+        if in_display and not dni:
+            dni = built[:1]
+        if bool(built) != bool(dni):
+            p_decl.append('a DoesNotImplement is built but not recorded')
+        from .sem import decided
+        T_ATOM, D_ATOM = 'tentative', '%s(candidate)' % T
+        want_rec = decided(ps, [T_ATOM, D_ATOM], lambda m: (not m[T_ATOM]) and (not m[D_ATOM]))
+        if want_rec is None:
+            p_decl.append('recording DoesNotImplement is not decided by `tentative` and '
+                          '%s(candidate)' % T)
+        elif want_rec != bool(dni):
+            p_decl.append('DoesNotImplement recorded: %s although the candidate %s'
+                          % (bool(dni), 'is tentative or declares' if not want_rec
+                             else 'is not tentative and does not declare'))
+        if want_rec is False and ps.fact(T_ATOM) is True and any(
+                e.kind == 'call' and nt(e.r) == D_ATOM for e in ps.events):
+            p_decl.append('asks the tester although tentative')
+        apps = apps + ins0
         L = {nt(e.r.func.value) for e in apps}
         # element loop
         its = iterated(ps)
@@ -846,8 +869,8 @@ def verify_collects(rep, vmod, rule, rule_sel):
         Ls = sorted(L)[0] if L else None
         if Ls is None:
             # no append on this path: find the list from the facts
-            cands = {cc for cc, t, p in ps.order if cc in ('[]', 'list()')}
-            Ls = sorted(cands)[0] if cands else '[]'
+            cands = {cc for cc, t, p in ps.order if cc in ('[]', 'list()')} | set(displays)
+            Ls = sorted(cands, key=len)[-1] if cands else '[]'
         consistent = []
         for n in (0, 1, 2):
             okn = True
